@@ -298,6 +298,11 @@ func checkAssemblerOrder(c *core.Ctx, pkg, rp string) {
 		checkUnlinkSides(c, r6, pkg)
 	}
 
+	r9 := c.Rule(rp+".9", "T", "a delivered batch is not delivered again: on every path (across calls) from a delivery of a.ret to the next append into a.ret the batch is emptied")
+	checkBatchReset(c, r9, pkg)
+	r8 := c.Rule(rp+".8", "T", "a recycled page carries nothing over: every per-use field of a page that the package ever stores a value into is reset by pageCache.next or stored by the function that takes the page from it")
+	checkPageReset(c, r8, pkg)
+
 	// ---- .1
 	add := p.Func(pkg, "Sequence.Add")
 	dif := p.Func(pkg, "Sequence.Difference")
@@ -1001,5 +1006,268 @@ func checkUnlinkSides(c *core.Ctx, r *core.Rule, pkg string) {
 	c.Counts[pkg+"_unlink_tests"] = n
 	if n < 3 {
 		r.Missing(pkg+"/unlink-tests", fmt.Sprintf("only %d one-sided link updates found (3 confirmed by reading)", n))
+	}
+}
+
+// pageFieldPath: addr is a field address (possibly nested through embedded
+// structs) rooted at a *page value; returns the dotted path and the root.
+func pageFieldPath(addr ssa.Value) (string, ssa.Value) {
+	pth, base := core.FieldPath(addr)
+	if pth == "" || !isPagePtr(base.Type()) {
+		return "", nil
+	}
+	return pth, base
+}
+
+func checkPageReset(c *core.Ctx, r *core.Rule, pkg string) {
+	p := c.P
+	next := p.Func(pkg, "pageCache.next")
+	if next == nil {
+		r.Missing(pkg+".pageCache.next", "not found")
+		return
+	}
+	fns := pkgFunctions(p, pkg)
+	// flattened per-use fields of page
+	var pageT *types.Struct
+	for _, fn := range fns {
+		for _, pa := range fn.Params {
+			if isPagePtr(pa.Type()) {
+				pageT = pa.Type().(*types.Pointer).Elem().Underlying().(*types.Struct)
+			}
+		}
+	}
+	if pageT == nil {
+		r.Missing(pkg+".page", "type not found")
+		return
+	}
+	var fields []string
+	var flat func(prefix string, st *types.Struct)
+	flat = func(prefix string, st *types.Struct) {
+		for i := 0; i < st.NumFields(); i++ {
+			f := st.Field(i)
+			if _, isArr := f.Type().Underlying().(*types.Array); isArr {
+				continue // backing storage
+			}
+			if sub, ok := f.Type().Underlying().(*types.Struct); ok && f.Embedded() {
+				flat(prefix+f.Name()+".", sub)
+				continue
+			}
+			fields = append(fields, prefix+f.Name())
+		}
+	}
+	flat("", pageT)
+	covers := func(set map[string]bool, f string) bool {
+		if set[f] {
+			return true
+		}
+		for i := len(f) - 1; i > 0; i-- {
+			if f[i] == '.' && set[f[:i]] {
+				return true
+			}
+		}
+		return false
+	}
+	// stores in next on the returned page (next is straight-line after the page is obtained: require dominance of the return)
+	inNext := map[string]bool{}
+	rets := core.Returns(next)
+	core.Instrs(next, func(ins ssa.Instruction) {
+		st, ok := ins.(*ssa.Store)
+		if !ok {
+			return
+		}
+		pth, _ := pageFieldPath(st.Addr)
+		if pth == "" {
+			return
+		}
+		dom := true
+		for _, rt := range rets {
+			if !core.Dominates(ins, rt) {
+				dom = false
+			}
+		}
+		if dom {
+			inNext[pth] = true
+		}
+	})
+	// stores by the functions that call next, on any page value (may-store)
+	byCallers := map[string]bool{}
+	// fields that can hold a non-zero value: stored anywhere outside next with a value that is not the zero constant
+	dirty := map[string]ssa.Instruction{}
+	g := p.CG(false)
+	callers := map[*ssa.Function]bool{}
+	if n := g.Nodes[next]; n != nil {
+		for _, e := range n.In {
+			callers[e.Caller.Func] = true
+		}
+	}
+	for _, fn := range fns {
+		if fn == next {
+			continue
+		}
+		core.Instrs(fn, func(ins ssa.Instruction) {
+			st, ok := ins.(*ssa.Store)
+			if !ok {
+				return
+			}
+			pth, _ := pageFieldPath(st.Addr)
+			if pth == "" {
+				return
+			}
+			if callers[fn] {
+				byCallers[pth] = true
+			}
+			zero := false
+			if k, ok := st.Val.(*ssa.Const); ok && (k.Value == nil || k.IsNil() || (k.Value.String() == "0") || k.Value.String() == "false") {
+				zero = true
+			}
+			if !zero {
+				if _, seen := dirty[pth]; !seen {
+					dirty[pth] = ins
+				}
+			}
+		})
+	}
+	n := 0
+	for _, f := range fields {
+		at, isDirty := dirty[f]
+		if !isDirty {
+			continue
+		}
+		n++
+		key := core.FnKey(next) + "/resets:" + f
+		switch {
+		case covers(inNext, f):
+			r.OK(key, p.Pos(next.Pos()), "reset in next")
+		case covers(byCallers, f):
+			r.OK(key, p.Pos(next.Pos()), "stored by the function that takes the page from next")
+		default:
+			r.Violate(key, p.Pos(next.Pos()), "page field "+f+" receives a value at "+p.InstrPos(at)+" but is neither reset when a page is recycled nor stored by the code that takes the page from the cache: the next segment buffered in that page is delivered with the earlier segment's "+f, nil)
+		}
+	}
+	if n < 3 {
+		r.Missing(pkg+"/page-fields", fmt.Sprintf("only %d dirty-capable page fields found", n))
+	}
+}
+
+// checkBatchReset: effects on the Assembler's `ret` batch — RESET (ret = ret[:0]),
+// APPEND (any other store to ret) and SEND (the stream's Reassembled*
+// callback).  Summaries: a function "appends first" if some path from its
+// entry reaches an APPEND before a RESET; it "ends sent" if some path from a
+// SEND reaches its exit without a RESET.  A violation is a path from a
+// SEND-like instruction to an APPEND-like one with no RESET in between.
+func checkBatchReset(c *core.Ctx, r *core.Rule, pkg string) {
+	p := c.P
+	fns := pkgFunctions(p, pkg)
+	isRetAddr := func(a ssa.Value) bool {
+		fa, ok := a.(*ssa.FieldAddr)
+		return ok && core.FieldOfAddr(fa).Name() == "ret" && core.NamedIs(fa.X.Type(), "Assembler")
+	}
+	kindOf := func(ins ssa.Instruction) string {
+		if st, ok := ins.(*ssa.Store); ok && isRetAddr(st.Addr) {
+			if sl, ok := st.Val.(*ssa.Slice); ok && sl.High != nil {
+				if k, ok := core.ConstInt(sl.High); ok && k == 0 {
+					return "RESET"
+				}
+			}
+			return "APPEND"
+		}
+		if cc := core.CallCommonOf(ins); cc != nil && cc.IsInvoke() && strings.HasPrefix(cc.Method.Name(), "Reassembled") && core.NamedIs(cc.Value.Type(), "Stream") {
+			return "SEND"
+		}
+		return ""
+	}
+	appendsFirst := map[*ssa.Function]bool{}
+	endsSent := map[*ssa.Function]bool{}
+	mustReset := map[*ssa.Function]bool{}
+	calleeOf := func(ins ssa.Instruction) *ssa.Function {
+		if _, isDefer := ins.(*ssa.Defer); isDefer {
+			return nil
+		}
+		if cc := core.CallCommonOf(ins); cc != nil {
+			return cc.StaticCallee()
+		}
+		return nil
+	}
+	isReset := func(ins ssa.Instruction) bool {
+		if kindOf(ins) == "RESET" {
+			return true
+		}
+		if f := calleeOf(ins); f != nil && mustReset[f] {
+			return true
+		}
+		return false
+	}
+	isAppend := func(ins ssa.Instruction) bool {
+		if kindOf(ins) == "APPEND" {
+			return true
+		}
+		if f := calleeOf(ins); f != nil && appendsFirst[f] {
+			return true
+		}
+		return false
+	}
+	isSend := func(ins ssa.Instruction) bool {
+		if kindOf(ins) == "SEND" {
+			return true
+		}
+		if f := calleeOf(ins); f != nil && endsSent[f] {
+			return true
+		}
+		return false
+	}
+	isRet := func(ins ssa.Instruction) bool { _, ok := ins.(*ssa.Return); return ok }
+	for changed, iter := true, 0; changed && iter < 10; iter++ {
+		changed = false
+		for _, fn := range fns {
+			if !appendsFirst[fn] && core.ForwardSearch(fn, nil, isAppend, isReset) != nil {
+				appendsFirst[fn] = true
+				changed = true
+			}
+			if !endsSent[fn] {
+				core.Instrs(fn, func(ins ssa.Instruction) {
+					if !endsSent[fn] && isSend(ins) && core.ForwardSearch(fn, ins, isRet, isReset) != nil {
+						endsSent[fn] = true
+						changed = true
+					}
+				})
+			}
+			if !mustReset[fn] && !appendsFirst[fn] {
+				// a RESET on every path from entry to exit
+				has := false
+				core.Instrs(fn, func(ins ssa.Instruction) {
+					if kindOf(ins) == "RESET" {
+						has = true
+					}
+				})
+				if has && core.ForwardSearch(fn, nil, isRet, isReset) == nil {
+					mustReset[fn] = true
+					changed = true
+				}
+			}
+		}
+	}
+	n := 0
+	for _, fn := range fns {
+		k := 0
+		core.Instrs(fn, func(ins ssa.Instruction) {
+			if !isSend(ins) {
+				return
+			}
+			n++
+			k++
+			key := core.FnKey(fn) + "/after-delivery"
+			if k > 1 {
+				key += "#" + string(rune('0'+k))
+			}
+			hit := core.ForwardSearch(fn, ins, isAppend, isReset)
+			if hit == nil {
+				r.OK(key, p.InstrPos(ins), "no append to the batch follows this delivery without a reset")
+			} else {
+				r.Violate(key, p.InstrPos(ins), "after this delivery the batch a.ret is appended to again at "+p.InstrPos(hit)+" without having been emptied: chunks already handed to the stream are handed to it a second time", nil)
+			}
+		})
+	}
+	if n < 2 {
+		r.Missing(pkg+"/deliveries", fmt.Sprintf("only %d delivery sites found", n))
 	}
 }
